@@ -6,7 +6,7 @@ import logging
 
 from hv import boot  # noqa: F401
 
-from haiway import MissingContext, MissingState, State, ctx  # noqa: E402
+from haiway import Missing, MissingContext, MissingState, State, ctx  # noqa: E402
 
 
 class A(State):
@@ -45,9 +45,16 @@ class F(State):
         return False
 
 
+class M(State):
+    """no declared default for `m`, yet default-constructible: the annotation accepts MISSING"""
+
+    m: int | Missing
+    tag: str = ""
+
+
 GI = G[int]
 
-FAMILY: dict[str, type[State]] = {"A": A, "A2": A2, "R": R, "G": GI, "U": U, "F": F}
+FAMILY: dict[str, type[State]] = {"A": A, "A2": A2, "R": R, "G": GI, "U": U, "F": F, "M": M}
 
 # supply alphabet: lists of type names (two entries of one type = two instances, last wins)
 SUPPLY = [
@@ -66,6 +73,7 @@ SUPPLY = [
     ["U"],
     ["F"],
     ["A", "F"],
+    ["M"],
 ]
 
 
@@ -77,6 +85,8 @@ def make_states(names: list[str], label: str) -> list[State]:
             out.append(R(x=1, tag=tag))
         elif n == "U":
             out.append(U(v=1, tag=tag))
+        elif n == "M":
+            out.append(M(m=1, tag=tag))
         elif n == "A=":
             out.append(A(tag=tag))  # callers re-tag it to equal the enclosing instance
         elif n == "G":
